@@ -333,6 +333,7 @@ fn corpus() -> Vec<PartialDSym> {
     }
     let mut rng = Rng(2024);
     for size in 1..=5 { for dim in 1..=3 { for _ in 0..12 { if let Ok(Some(s)) = quiet(|| random_dsym(&mut rng, size, dim)) { out.push(s); } } } }
+    for size in 6..=8 { for dim in 1..=3 { for _ in 0..20 { if let Ok(Some(s)) = quiet(|| random_dsym(&mut rng, size, dim)) { out.push(s); } } } }
     out
 }
 fn orbit_len<T: DSet>(ds: &T, i: usize, j: usize, d: usize) -> Option<usize> {
@@ -482,6 +483,137 @@ fn check_c11() {
     }
 }
 
+
+// ================================================================================================
+// BOUNDED stand-ins for the clauses no contract in reach decides (labelled bounded in the evidence, never counted as proved)
+// ================================================================================================
+fn reach<T: DSet>(ds: &T, idx: &[usize], seed: usize) -> BTreeSet<usize> {
+    let mut seen = BTreeSet::new(); seen.insert(seed); let mut st = vec![seed];
+    while let Some(d) = st.pop() { for &i in idx { if let Some(e) = ds.op(i, d) { if seen.insert(e) { st.push(e); } } } }
+    seen
+}
+fn index_lists(dim: usize) -> Vec<Vec<usize>> {
+    let mut out = vec![];
+    for mask in 1u32..(1 << (dim + 1)) { let v: Vec<usize> = (0..=dim).filter(|i| mask & (1 << i) != 0).collect(); let mut r = v.clone(); r.reverse(); if r != v { out.push(r); } out.push(v); }
+    if dim >= 2 { out.push(vec![1, 0, 2]); out.push(vec![2, 0, 1]); }
+    out
+}
+// C02, second sentence: orbits = reachability, one representative per component, every i-edge of a traversed component exactly
+// once, connected / complete / loopless / (weakly) oriented = their graph-theoretic definitions.  Stated bound: the corpus of
+// ~190 D-symbols (8 parsed + random involution tables of size <= 5, dimension <= 3, fixed seed), ALL index lists in ascending and
+// descending order (+ two mixed ones), all seeds.
+fn check_c02_graph() {
+    for ds in corpus() {
+        let txt = format!("{}", ds);
+        let (n, dim) = (ds.size(), ds.dim());
+        let all: Vec<usize> = (0..=dim).collect();
+        for idx in index_lists(dim) {
+            let mut comps: Vec<BTreeSet<usize>> = vec![];
+            for d in 1..=n {
+                let exp = reach(&ds, &idx, d);
+                match quiet(|| ds.orbit(idx.clone(), d)) {
+                    Ok(o) => { let got: BTreeSet<usize> = o.iter().cloned().collect(); if got != exp || o.len() != got.len() { falsified("DSet::orbit (Traversal)", format!("{} orbit({:?}, {})", txt, idx, d), format!("{:?} but the reachable set is {:?}", o, exp)); } }
+                    Err(e) => falsified("DSet::orbit (Traversal)", format!("{} orbit({:?}, {})", txt, idx, d), format!("panic {}", e)),
+                }
+                if !comps.iter().any(|c| c.contains(&d)) { comps.push(exp); }
+            }
+            if let Ok(reps) = quiet(|| ds.orbit_reps(idx.clone(), 1..=n)) {
+                for c in &comps { let k = reps.iter().filter(|r| c.contains(r)).count(); if k != 1 { falsified("DSet::orbit_reps (Traversal)", format!("{} orbit_reps({:?}, all)", txt, idx), format!("{:?}: component {:?} has {} representatives", reps, c, k)); break; } }
+            } else { falsified("DSet::orbit_reps (Traversal)", format!("{} orbit_reps({:?}, all)", txt, idx), "panic".into()); }
+            // every i-edge of the traversed component exactly once
+            for d in 1..=n.min(3) {
+                if let Ok(tr) = quiet(|| ds.traversal(idx.clone(), [d]).collect::<Vec<_>>()) {
+                    let comp = reach(&ds, &idx, d);
+                    let mut got: BTreeMap<(usize, usize, usize), usize> = BTreeMap::new();
+                    for (i, a, b) in &tr { if let Some(i) = i { *got.entry((*i, *a.min(b), *a.max(b))).or_insert(0) += 1; } }
+                    let mut exp: BTreeSet<(usize, usize, usize)> = BTreeSet::new();
+                    for &x in &comp { for &i in &idx { if let Some(y) = ds.op(i, x) { exp.insert((i, x.min(y), x.max(y))); } } }
+                    let gotset: BTreeSet<(usize, usize, usize)> = got.keys().cloned().collect();
+                    if gotset != exp || got.values().any(|&c| c != 1) { falsified("Traversal", format!("{} traversal({:?}, [{}])", txt, idx, d), format!("edges reported {:?}, edges of the component {:?}", got, exp)); }
+                }
+            }
+        }
+        let conn = reach(&ds, &all, 1).len() == n;
+        if quiet(|| ds.is_connected()).ok() != Some(conn) { falsified("DSet::is_connected", txt.clone(), format!("expected {}", conn)); }
+        let complete_sets = (0..=dim).all(|i| (1..=n).all(|d| ds.op(i, d).is_some()));
+        let loopless = (0..=dim).all(|i| (1..=n).all(|d| ds.op(i, d) != Some(d)));
+        if quiet(|| ds.is_loopless()).ok() != Some(loopless) { falsified("DSet::is_loopless", txt.clone(), format!("expected {}", loopless)); }
+        // bipartiteness with loops ignored
+        let mut col = vec![0i8; n + 1]; let mut bip = true;
+        for s0 in 1..=n { if col[s0] != 0 { continue; } col[s0] = 1; let mut st = vec![s0];
+            while let Some(d) = st.pop() { for i in 0..=dim { if let Some(e) = ds.op(i, d) { if e == d { continue; } if col[e] == 0 { col[e] = -col[d]; st.push(e); } else if col[e] == col[d] { bip = false; } } } } }
+        if quiet(|| ds.is_weakly_oriented()).ok() != Some(bip) { falsified("DSet::is_weakly_oriented (partial_orientation)", txt.clone(), format!("expected {}", bip)); }
+        if quiet(|| ds.is_oriented()).ok() != Some(bip && loopless) { falsified("DSet::is_oriented", txt.clone(), format!("expected {}", bip && loopless)); }
+        let _ = complete_sets;
+    }
+}
+
+// C04, first two sentences: is_minimal / minimal_image against the coarsest degree-respecting congruence computed by partition
+// refinement.  Stated bound: connected complete corpus symbols of size <= 5 (fixed seed) and their oriented covers.
+fn coarsest_congruence<T: DSym>(ds: &T) -> usize {
+    let n = ds.size(); let dim = ds.dim();
+    let sig0: Vec<Vec<Option<usize>>> = (0..=n).map(|d| if d == 0 { vec![] } else { (0..dim).map(|i| ds.m(i, i + 1, d)).collect() }).collect();
+    let mut cls: Vec<usize> = vec![0; n + 1];
+    { let mut keys: Vec<Vec<Option<usize>>> = vec![]; for d in 1..=n { let k = keys.iter().position(|x| *x == sig0[d]).unwrap_or_else(|| { keys.push(sig0[d].clone()); keys.len() - 1 }); cls[d] = k; } }
+    loop {
+        let mut keys: Vec<(usize, Vec<usize>)> = vec![]; let mut next = vec![0; n + 1];
+        for d in 1..=n { let sig: Vec<usize> = (0..=dim).map(|i| cls[ds.op(i, d).unwrap()]).collect(); let key = (cls[d], sig);
+            let k = keys.iter().position(|x| *x == key).unwrap_or_else(|| { keys.push(key.clone()); keys.len() - 1 }); next[d] = k; }
+        let (a, b) = (cls.iter().skip(1).collect::<BTreeSet<_>>().len(), next.iter().skip(1).collect::<BTreeSet<_>>().len());
+        cls = next; if a == b { return b; }
+    }
+}
+fn check_c04_minimal() {
+    let mut syms: Vec<PartialDSym> = vec![];
+    for ds in corpus() { if ds.is_complete() && ds.is_connected() && ds.size() <= 5 { if let Ok(c) = quiet(|| oriented_cover(&ds)) { if c.size() <= 10 { syms.push(c); } } syms.push(ds); } }
+    // covers of tiny symbols: non-minimal by construction; a symbol and its covers have minimal images of the same size
+    for s in ["<1.1:1:1,1,1:6,3>", "<1.1:1:1,1,1:4,4>", "<1.1:1:1,1,1:3,6>", "<1.1:2:2,1 2,1 2:6,4>", "<1.1:2:1 2,1 2,2:3 6,4>", "<1.1:1 3:1,1,1,1:4,3,4>"] {
+        if let Ok(base) = s.parse::<PartialDSym>() {
+            let kb = coarsest_congruence(&base);
+            if let Ok(cs) = quiet(|| rust_dsymbols::covers::covers(&base, 4)) { for c in cs {
+                if c.size() > 8 { continue; }
+                if let Ok(mi) = quiet(|| minimal_image(&c)) { if mi.size() != kb { falsified("minimal_image", format!("{} (a cover of {})", c, s), format!("minimal image of size {} but that of the base has size {}", mi.size(), kb)); } }
+                syms.push(c);
+            } }
+        }
+    }
+    for s in ["<1.1:3:1 2 3,1 3,2 3:6 6,3>", "<1.1:3:1 2 3,3 2,2 3:6 6,3>", "<1.1:2:1 2,1 2,2:4 6,4>"] { if let Ok(ds) = s.parse::<PartialDSym>() { syms.push(ds); } }
+    for ds in syms {
+        let txt = format!("{}", ds);
+        let k = coarsest_congruence(&ds);
+        match quiet(|| ds.is_minimal()) { Ok(b) => if b != (k == ds.size()) { falsified("DSet::is_minimal (fold)", txt.clone(), format!("{} but the coarsest degree-respecting congruence has {} classes on {} chambers", b, k, ds.size())); }, Err(e) => falsified("DSet::is_minimal (fold)", txt.clone(), format!("panic {}", e)) }
+        match quiet(|| minimal_image(&ds)) {
+            Ok(mi) => { if mi.size() != k { falsified("minimal_image", txt.clone(), format!("size {} but the coarsest degree-respecting congruence has {} classes", mi.size(), k)); }
+                        if (1..=mi.size()).all(|img| ds.morphism(&mi, img).is_none()) { falsified("minimal_image", txt.clone(), "the symbol does not map onto its minimal image".into()); } }
+            Err(e) => falsified("minimal_image", txt.clone(), format!("panic {}", e)),
+        }
+    }
+}
+
+// C18: determinant and solve of the machine-integer backend against exact arithmetic.  Stated bound: 400 random integer matrices,
+// square up to 4x4 (determinant, solve with a right-hand side built from an integer solution), entries in -3..=3, fixed seed.
+fn exact_det(m: &Vec<Vec<i64>>) -> i128 {
+    let n = m.len(); let mut a: Vec<Vec<i128>> = m.iter().map(|r| r.iter().map(|&x| x as i128).collect()).collect();
+    let mut sign = 1i128; let mut prev = 1i128;
+    for k in 0..n { if a[k][k] == 0 { if let Some(p) = ((k + 1)..n).find(|&r| a[r][k] != 0) { a.swap(p, k); sign = -sign; } else { return 0; } }
+        for i in (k + 1)..n { for j in (k + 1)..n { a[i][j] = (a[i][j] * a[k][k] - a[i][k] * a[k][j]) / prev; } } prev = a[k][k]; }
+    sign * a[n - 1][n - 1]
+}
+fn check_c18_exact() {
+    let mut rng = Rng(31337);
+    for n in 1..=4usize { for _ in 0..100 {
+        let data: Vec<Vec<i64>> = (0..n).map(|_| (0..n).map(|_| rng.below(7) as i64 - 3).collect()).collect();
+        let xs: Vec<i64> = (0..n).map(|_| rng.below(5) as i64 - 2).collect();
+        let mk = || { let mut m = VecMatrix::<i64>::new(n, n); for i in 0..n { for j in 0..n { m[(i, j)] = data[i][j]; } } m };
+        match quiet(|| mk().determinant()) { Ok(d) => if d as i128 != exact_det(&data) { falsified("VecMatrix::determinant", format!("{:?}", data), format!("{} but the exact determinant is {}", d, exact_det(&data))); }, Err(e) => falsified("VecMatrix::determinant", format!("{:?}", data), format!("panic {}", e)) }
+        let bs: Vec<i64> = (0..n).map(|i| (0..n).map(|j| data[i][j] * xs[j]).sum()).collect();
+        let r = quiet(|| { let a = mk(); let mut b = VecMatrix::<i64>::new(n, 1); for i in 0..n { b[(i, 0)] = bs[i]; } a.solve(&b).map(|x| (0..n).map(|i| x[(i, 0)]).collect::<Vec<i64>>()) });
+        match r { Ok(Some(x)) => { let back: Vec<i64> = (0..n).map(|i| (0..n).map(|j| data[i][j] * x[j]).sum()).collect(); if back != bs { falsified("VecMatrix::solve", format!("A={:?} b={:?}", data, bs), format!("returned {:?} which is not a solution", x)); } },
+                  Ok(None) => if exact_det(&data) == 1 || exact_det(&data) == -1 { falsified("VecMatrix::solve", format!("A={:?} b={:?}", data, bs), "None for a unimodular (hence solvable over the integers) system".into()); },
+                  Err(e) => falsified("VecMatrix::solve", format!("A={:?} b={:?}", data, bs), format!("panic {}", e)) }
+    } }
+}
+
 // random subgroups of the Coxeter groups S4 = [3,3] and S5 = [3,3,3]; the index is computed independently from the faithful
 // permutation representation s_i = (i i+1) by brute-force closure
 fn perm_mul(a: &Vec<usize>, b: &Vec<usize>) -> Vec<usize> { (0..a.len()).map(|i| b[a[i]]).collect() }
@@ -523,8 +655,8 @@ fn main() {
     let prop = std::env::args().nth(1).unwrap_or_default();
     std::panic::set_hook(Box::new(|_| {}));
     match prop.as_str() {
-        "C01" => check_c01(), "C02" => check_c02(), "C04" => check_c04(), "C05" => check_c05(),
-        "C10" => check_c10(), "C11" => { check_c11(); check_c11_random(); }, "C18" => check_c18(), "C20" => { check_c20(); check_c20_unions(); },
+        "C01" => check_c01(), "C02" => { check_c02(); check_c02_graph(); }, "C04" => { check_c04(); check_c04_minimal(); }, "C05" => check_c05(),
+        "C10" => check_c10(), "C11" => { check_c11(); check_c11_random(); }, "C18" => { check_c18(); check_c18_exact(); }, "C20" => { check_c20(); check_c20_unions(); },
         _ => { eprintln!("unknown property"); std::process::exit(2); }
     }
     unsafe { println!("falsifier finished: {} discrepancies", COUNT); }
